@@ -306,6 +306,24 @@ pub fn gen_rx(d: &mut Dec, p: &GenParams, depth: usize, budget: &mut usize) -> R
             )
         }
         3 => {
+            if d.chance(3) {
+                // a long run of one character or class (an algorithm iterating once per position
+                // may stop early at some bound); only leaves are repeated that often so that the
+                // automaton stays small
+                let inner = match d.below(3) {
+                    0 => Rx::Class(gen_class(d, p)),
+                    _ => {
+                        let c = gen_char(d);
+                        Rx::Lit(c, LitForm::Verbatim)
+                    }
+                };
+                let n = *d.pick(&[17u32, 31, 32, 33, 34, 40, 63, 64, 65, 66, 70, 100, 128, 130]);
+                return match d.below(3) {
+                    0 => Rx::Repeat(Box::new(inner), n, Some(n)),
+                    1 => Rx::Repeat(Box::new(inner), n, None),
+                    _ => Rx::Repeat(Box::new(inner), n - 3, Some(n)),
+                };
+            }
             let inner = gen_rx(d, p, depth - 1, budget);
             let (a, b) = gen_repeat_bounds(d);
             Rx::Repeat(Box::new(inner), a, b)
@@ -724,4 +742,34 @@ pub fn gen_long_token(d: &mut Dec) -> (Rx, String) {
     s.push_str(if comment { "*/" } else { "#" });
     s.push_str("\nab ab#");
     (rx, s)
+}
+
+/// Many tiny modes (257-300): mode indices beyond one byte.
+pub fn gen_many_modes(d: &mut Dec) -> Vec<ModeSpec> {
+    let n = 257 + d.below(44);
+    let mut modes = Vec::with_capacity(n);
+    for i in 0..n {
+        let a = Rx::Lit(*d.pick(&['a', 'b', 'c', 'x']), LitForm::Verbatim);
+        let b = Rx::Repeat(Box::new(Rx::Lit(*d.pick(&['0', '1', 'a']), LitForm::Verbatim)), 1, None);
+        let mut transitions = Vec::new();
+        // transitions to far-away and to nearby modes
+        let t1 = match d.below(3) {
+            0 => n - 1 - d.below(40),
+            1 => (i + 1) % n,
+            _ => d.below(n),
+        };
+        transitions.push((1, t1));
+        if d.bool() {
+            transitions.push((2, d.below(n)));
+        }
+        modes.push(ModeSpec {
+            name: format!("M{}", i),
+            pats: vec![
+                PatSpec { rx: a, tt: 1, la: None },
+                PatSpec { rx: b, tt: 2, la: None },
+            ],
+            transitions,
+        });
+    }
+    modes
 }
